@@ -28,6 +28,8 @@ def monitor(cfg, obs):
     if res[0] == 'hang':
         out.append(('terminates', res[1]))
         return out
+    if res[0] == 'exc' and res[1] not in ('RequestRejectedException', 'RequestFailedException', 'MaxRetriesException', 'PartialResponseException'):
+        out.append(('ends-with-a-documented-outcome', f'{res[1]}: {str(res[2])[:60]}'))
     ntx = len(obs.txs)
     if ntx > R + 1:
         out.append(('tx<=R+1', f'{ntx} transmissions'))
@@ -225,6 +227,11 @@ def run(tier, seed, rep):
                 jobs.append((cfg, 'product', 2, alphabet(tr), ['ok'], None))
                 if any(x in letter for x in ('1.5T', 'T+e', '1.2T', '+fin', 'dup', '2x', 'invalid+')):
                     jobs.append((dict(cfg, drain=True), 'product', 2, alphabet(tr), ['ok'], None))
+    # Modbus/TCP requests whose transmissions cross the wrap of the transaction counter
+    for ka in (False, True):
+        for start in (0xFFFB, 0xFFFC, 0xFFFD, 0xFFFE):      # (states the counter can really be in)
+            cfg = dict(transport='tcp', ka=ka, T=1, R=2, cmd='read', tx_start=start)
+            jobs.append((cfg, 'deviations', 2, alphabet('tcp'), ['ok'], None))
     # R=3 with deviation bound
     for tr in ('udp', 'tcp'):
         for ka in (False, True):
